@@ -231,6 +231,25 @@ def explore(harness, param_list, bound, max_exec_per_param=None, deadline=None, 
     return total
 
 
+def extra(st, harness, param_list, bound, budget_s, what):
+    """an additional exploration under a wall-clock budget whose violations count but whose completion does not affect
+    the main claim: merged into st, returns a dict for the evidence"""
+    st2 = explore(harness, param_list, bound, budget_s=budget_s)
+    capped = st.capped
+    audit = st.audit
+    st.merge(st2)
+    st.capped = capped
+    st.audit = audit
+    return {"what": what, "executions": st2.executions, "completed": not st2.capped, "budget_s": budget_s,
+            "distinct_outcomes": len(st2.outcomes), "bound": bound}
+
+
+def hybrid(harness):
+    """instruction granularity with the rule 'two preemptions, at most one of them inside a source line' (bound 2.015)"""
+    harness.intra_cost = 1.01
+    return harness
+
+
 AUDIT_TOOL = 4
 
 
